@@ -129,6 +129,9 @@ STATE_OPS = [
     ["F", {"weight_cp": 0}],
     ["F", {"range_x": [-4e-9, 4e-9]}],       # too few points: unsuccessful
     ["F", {"range_x": [0, 0]}],
+    # unsuccessful although an earlier pass left fitted parameters
+    ["F", {"range_type": "relative cp", "range_x": [-1e-9, 1e-9]}],
+    ["F", {"range_type": "absolute"}],
     ["E", "weight_cp", 0],
     ["F", {"range_type": "bogus"}],          # raises
 ]
@@ -199,7 +202,10 @@ class Recorded(Driver):
     name = "recorded"
     ops = STATE_OPS[:1] + [["F", {"model_key": "sneddon_spher_approx"}],
                            ["F", {"weight_cp": 0}], ["E", "weight_cp", 0],
-                           ["F", {"range_x": [-4e-9, 4e-9]}]] + RATE_OPS[:6]
+                           ["F", {"range_x": [-4e-9, 4e-9]}],
+                           ["F", {"range_type": "relative cp",
+                                  "range_x": [-1e-10, 1e-10]}]] \
+        + RATE_OPS[:6]
 
     def fresh(self):
         from nanite import IndentationGroup
@@ -215,15 +221,17 @@ SWEEP_STATES = [
     ("long", []),
     ("long", [0]),
     ("long", [0, 2]),
-    ("long", [0, 2, 6]),
+    ("long", [0, 2, 8]),
     ("long", [0, 2, 3]),
     ("long", [0, 4]),
-    ("long", [0, 2, 7]),
+    ("long", [0, 6]),
+    ("long", [0, 2, 9]),
     ("short", [0, 2]),
     ("short", [0]),
     ("recorded", [0, 1]),
     ("recorded", [0, 1, 3]),
     ("recorded", [0, 4]),
+    ("recorded", [0, 1, 5]),
 ]
 
 
